@@ -170,4 +170,329 @@ theorem quote_ne_nil (s : Str) (h : s ≠ []) : quote s ≠ [] := by
         · simp [pctByte]
         · split <;> simp [pctByte]
 
+/-! ### splitting -/
+
+theorem takeUntil_stop (p : Char → Bool) (a : Str) (c : Char) (b : Str)
+    (ha : ∀ x ∈ a, p x = false) (hc : p c = true) :
+    takeUntil p (a ++ c :: b) = a ∧ dropUntil p (a ++ c :: b) = c :: b := by
+  induction a with
+  | nil => simp [takeUntil, dropUntil, hc]
+  | cons x xs ih =>
+    have hx := ha x (by simp)
+    have := ih (fun y hy => ha y (by simp [hy]))
+    simp [takeUntil, dropUntil, hx, this]
+
+theorem takeUntil_none (p : Char → Bool) (a : Str) (ha : ∀ x ∈ a, p x = false) :
+    takeUntil p a = a ∧ dropUntil p a = [] := by
+  induction a with
+  | nil => simp [takeUntil, dropUntil]
+  | cons x xs ih =>
+    have hx := ha x (by simp)
+    have := ih (fun y hy => ha y (by simp [hy]))
+    simp [takeUntil, dropUntil, hx, this]
+
+theorem partition_found (sep : Char) (a b : Str) (ha : ∀ x ∈ a, x ≠ sep) :
+    partition sep (a ++ sep :: b) = (a, true, b) := by
+  have := takeUntil_stop (· == sep) a sep b (fun x hx => by simpa using ha x hx) (by simp)
+  simp [partition, this.1, this.2]
+
+theorem partition_none (sep : Char) (a : Str) (ha : ∀ x ∈ a, x ≠ sep) :
+    partition sep a = (a, false, []) := by
+  have := takeUntil_none (· == sep) a (fun x hx => by simpa using ha x hx)
+  simp [partition, this.2]
+
+theorem rpartition_found (sep : Char) (a b : Str) (hb : ∀ x ∈ b, x ≠ sep) :
+    rpartition sep (a ++ sep :: b) = (a, true, b) := by
+  have h : (a ++ sep :: b).reverse = b.reverse ++ sep :: a.reverse := by simp
+  have := partition_found sep b.reverse a.reverse (fun x hx => hb x (by simpa using hx))
+  simp [rpartition, h, this]
+
+theorem rpartition_none (sep : Char) (a : Str) (ha : ∀ x ∈ a, x ≠ sep) :
+    rpartition sep a = ([], false, a) := by
+  have := partition_none sep a.reverse (fun x hx => ha x (by simpa using hx))
+  simp [rpartition, this]
+
+theorem contains_false (sep : Char) (a : Str) (ha : ∀ x ∈ a, x ≠ sep) : a.contains sep = false := by
+  cases h : a.contains sep with
+  | false => rfl
+  | true => exact absurd rfl (ha sep (by simpa using h))
+
+theorem splitOn_ne_nil (sep : Char) (a : Str) : splitOn sep a ≠ [] := by
+  cases a with
+  | nil => simp [splitOn]
+  | cons x xs =>
+    simp only [splitOn]
+    split <;> (try split) <;> simp
+
+theorem splitOn_none (sep : Char) (a : Str) (ha : ∀ x ∈ a, x ≠ sep) : splitOn sep a = [a] := by
+  induction a with
+  | nil => rfl
+  | cons x xs ih =>
+    have hx := ha x (by simp)
+    simp [splitOn, ih (fun y hy => ha y (by simp [hy])), hx]
+
+theorem splitOn_found (sep : Char) (a b : Str) (ha : ∀ x ∈ a, x ≠ sep) :
+    splitOn sep (a ++ sep :: b) = a :: splitOn sep b := by
+  induction a with
+  | nil =>
+    simp only [List.nil_append, splitOn]
+    cases h : splitOn sep b with
+    | nil => exact absurd h (splitOn_ne_nil sep b)
+    | cons hd tl => simp
+  | cons x xs ih =>
+    have hx := ha x (by simp)
+    simp [splitOn, ih (fun y hy => ha y (by simp [hy])), hx]
+
+theorem class_ne (K : Char → Bool) (c d : Char) (h : K c = true) (hd : K d = false) : c ≠ d := by
+  rintro rfl; simp [h] at hd
+
+theorem ne_of_class {K : Char → Bool} {s : Str} (h : ∀ x ∈ s, K x = true) (d : Char)
+    (hd : K d = false) : ∀ x ∈ s, x ≠ d :=
+  fun x hx => class_ne K x d (h x hx) hd
+
+/-! ### decimal numerals -/
+
+theorem isDigit_range (c : Char) (h : c.isDigit = true) : 48 ≤ c.toNat ∧ c.toNat ≤ 57 := by
+  simp only [Char.isDigit, Bool.and_eq_true, decide_eq_true_eq, UInt32.le_iff_toNat_le] at h
+  exact h
+
+theorem digitChar_isDigit : ∀ d, d < 10 → (digitChar d).isDigit = true ∧ (digitChar d).toNat = 48 + d := by
+  decide
+
+def decStep (a : Nat) (c : Char) : Nat := a * 10 + (c.toNat - 48)
+
+theorem digitsVal_digits (ds : Str) (h : ∀ c ∈ ds, c.isDigit = true) (acc : Nat) (pd : Bool) :
+    digitsVal acc pd ds =
+      if ds = [] then (if pd then some acc else none) else some (ds.foldl decStep acc) := by
+  induction ds generalizing acc pd with
+  | nil => simp [digitsVal]
+  | cons c cs ih =>
+    have hc := h c (by simp)
+    have hne : c ≠ '_' := class_ne Char.isDigit c '_' hc (by decide)
+    simp only [digitsVal, beq_iff_eq, hne, if_false, digitVal, hc, if_true]
+    rw [ih (fun x hx => h x (by simp [hx]))]
+    simp only [List.foldl_cons, decStep, reduceCtorEq, if_false, if_true]
+    split
+    · rename_i h0; subst h0; rfl
+    · rfl
+
+theorem toDecF_digits (f n : Nat) : ∀ c ∈ toDecF f n, c.isDigit = true := by
+  induction f generalizing n with
+  | zero =>
+    intro c hc
+    simp only [toDecF, List.mem_singleton] at hc
+    subst hc
+    exact (digitChar_isDigit _ (by omega)).1
+  | succ f ih =>
+    intro c hc
+    simp only [toDecF] at hc
+    split at hc
+    · simp only [List.mem_singleton] at hc
+      subst hc
+      exact (digitChar_isDigit _ (by omega)).1
+    · simp only [List.mem_append, List.mem_singleton] at hc
+      rcases hc with hc | rfl
+      · exact ih _ c hc
+      · exact (digitChar_isDigit _ (by omega)).1
+
+theorem toDecF_ne_nil (f n : Nat) : toDecF f n ≠ [] := by
+  cases f with
+  | zero => simp [toDecF]
+  | succ f => simp only [toDecF]; split <;> simp
+
+theorem toDecF_val (f n : Nat) (h : n ≤ f) : (toDecF f n).foldl decStep 0 = n := by
+  induction f generalizing n with
+  | zero =>
+    have : n = 0 := by omega
+    subst this
+    simp [toDecF, decStep, (digitChar_isDigit 0 (by omega)).2]
+  | succ f ih =>
+    simp only [toDecF]
+    split
+    · rename_i h10
+      simp [decStep, (digitChar_isDigit n h10).2]
+    · rw [List.foldl_append, ih (n / 10) (by omega)]
+      simp only [List.foldl_cons, List.foldl_nil, decStep, (digitChar_isDigit (n % 10) (by omega)).2]
+      omega
+
+theorem toDec_digits (n : Nat) : ∀ c ∈ toDec n, c.isDigit = true := toDecF_digits n n
+theorem toDec_ne_nil (n : Nat) : toDec n ≠ [] := toDecF_ne_nil n n
+
+theorem digitsVal_toDec (n : Nat) : digitsVal 0 false (toDec n) = some n := by
+  rw [digitsVal_digits _ (toDec_digits n), if_neg (toDec_ne_nil n)]
+  exact congrArg some (toDecF_val n n (Nat.le_refl n))
+
+theorem portOf_toDec (n : Nat) (h : n ≤ 65535) : portOf (some (toDec n)) = .ok (some n) := by
+  have hall : (toDec n).all Char.isDigit = true := by
+    simpa [List.all_eq_true] using toDec_digits n
+  simp [portOf, hall, digitsVal_toDec, h]
+
+theorem dropWhile_none (p : Char → Bool) (l : Str) (h : ∀ x ∈ l, p x = false) : l.dropWhile p = l := by
+  cases l with
+  | nil => rfl
+  | cons x xs => simp [List.dropWhile, h x (by simp)]
+
+theorem digit_not_space (c : Char) (h : c.isDigit = true) : pySpace c = false := by
+  have := isDigit_range c h
+  simp only [pySpace, Bool.or_eq_false_iff, Bool.and_eq_false_iff, decide_eq_false_iff_not, beq_eq_false_iff_ne]
+  omega
+
+theorem pyInt_toDec (n : Nat) : pyInt (toDec n) = .ok (n : Int) := by
+  have hd := toDec_digits n
+  have hany : (toDec n).any (fun c => decide (128 ≤ c.toNat)) = false := by
+    simp only [List.any_eq_false, decide_eq_true_eq]
+    intro c hc
+    have := isDigit_range c (hd c hc)
+    omega
+  have hstrip : strip (toDec n) = toDec n := by
+    unfold strip
+    rw [dropWhile_none _ _ (fun x hx => digit_not_space x (hd x hx)),
+      dropWhile_none _ _ (fun x hx => digit_not_space x (hd x (by simpa using hx)))]
+    simp
+  have hhead : ∀ d : Char, Char.isDigit d = false → ((toDec n).head? == some d) = false := by
+    intro d hdd
+    cases h : toDec n with
+    | nil => rfl
+    | cons c cs =>
+      have : c ≠ d := class_ne Char.isDigit c d (hd c (by simp [h])) hdd
+      simp [this]
+  simp only [pyInt, hany, hstrip, hhead '-' (by decide), hhead '+' (by decide), Bool.false_eq_true,
+    if_false, Bool.or_self, digitsVal_toDec]
+
+/-! ### unquote on text without escapes -/
+
+theorem unquoteBytes_noPct (s : Str) (h : ∀ c ∈ s, c ≠ '%') : unquoteBytes s = utf8 s := by
+  induction s with
+  | nil => rfl
+  | cons c cs ih =>
+    rw [unquoteBytes_cons_ne c cs (h c (by simp)), ih (fun x hx => h x (by simp [hx]))]
+    simp [utf8]
+
+theorem unquote_noPct (s : Str) (h : ∀ c ∈ s, c ≠ '%') : unquote s = s := by
+  unfold unquote
+  rw [unquoteBytes_noPct s h, utf8Dec_utf8]
+
+theorem plusToSpace_id (s : Str) (h : ∀ c ∈ s, c ≠ '+') : plusToSpace s = s := by
+  induction s with
+  | nil => rfl
+  | cons c cs ih =>
+    have := h c (by simp)
+    simp only [plusToSpace, List.map_cons, beq_iff_eq, this, if_false] at ih ⊢
+    rw [ih (fun x hx => h x (by simp [hx]))]
+
+/-! ### the query -/
+
+def optKey : UOpt → Str
+  | .heartbeat _ => ['h', 'e', 'a', 'r', 't', 'b', 'e', 'a', 't']
+  | .timeout _ => ['t', 'i', 'm', 'e', 'o', 'u', 't']
+
+def optNum : UOpt → Nat
+  | .heartbeat n => n
+  | .timeout n => n
+
+theorem renderOpt_eq (o : UOpt) : renderOpt o = optKey o ++ '=' :: toDec (optNum o) := by
+  cases o <;> simp [renderOpt, optKey, optNum]
+
+theorem optKey_alpha (o : UOpt) : ∀ x ∈ optKey o, x.isAlpha = true := by
+  cases o <;> (simp only [optKey]; decide)
+
+theorem renderOpt_class (o : UOpt) : ∀ x ∈ renderOpt o, (x.isAlphanum || x == '=') = true := by
+  intro x hx
+  rw [renderOpt_eq] at hx
+  simp only [List.mem_append, List.mem_cons] at hx
+  rcases hx with hx | rfl | hx
+  · have := optKey_alpha o x hx
+    simp [Char.isAlphanum, this]
+  · decide
+  · have := toDec_digits _ x hx
+    simp [Char.isAlphanum, this]
+
+/-- the text after '?' -/
+def queryText : List UOpt → Str
+  | [] => []
+  | o :: os => renderOpt o ++ os.flatMap (fun o => '&' :: renderOpt o)
+
+theorem renderQuery_eq (os : List UOpt) :
+    renderQuery os = if os = [] then [] else '?' :: queryText os := by
+  cases os <;> simp [renderQuery, queryText]
+
+theorem queryText_class (os : List UOpt) :
+    ∀ x ∈ queryText os, (x.isAlphanum || x == '=' || x == '&') = true := by
+  intro x hx
+  cases os with
+  | nil => simp [queryText] at hx
+  | cons o os =>
+    simp only [queryText, List.mem_append, List.mem_flatMap, List.mem_cons] at hx
+    rcases hx with hx | ⟨o', _, rfl | hx⟩
+    · have := renderOpt_class o x hx
+      simp only [Bool.or_eq_true] at this ⊢
+      exact Or.inl this
+    · decide
+    · have := renderOpt_class o' x hx
+      simp only [Bool.or_eq_true] at this ⊢
+      exact Or.inl this
+
+theorem splitOn_query (o : UOpt) (os : List UOpt) :
+    splitOn '&' (renderOpt o ++ os.flatMap (fun o => '&' :: renderOpt o)) = (o :: os).map renderOpt := by
+  induction os generalizing o with
+  | nil =>
+    simp only [List.flatMap_nil, List.append_nil, List.map_cons, List.map_nil]
+    exact splitOn_none '&' _ (ne_of_class (renderOpt_class o) '&' (by decide))
+  | cons o' os ih =>
+    simp only [List.flatMap_cons, List.cons_append, List.map_cons]
+    rw [splitOn_found '&' _ _ (ne_of_class (renderOpt_class o) '&' (by decide)), ih o']
+    rfl
+
+theorem field_parse (o : UOpt) : parseField (renderOpt o) = some (optKey o, toDec (optNum o)) := by
+  unfold parseField
+  have hk : ∀ x ∈ optKey o, x ≠ '=' := ne_of_class (optKey_alpha o) '=' (by decide)
+  rw [renderOpt_eq, partition_found '=' _ _ hk]
+  simp only [toDec_ne_nil, if_false]
+  have h1 : plusToSpace (optKey o) = optKey o :=
+    plusToSpace_id _ (ne_of_class (optKey_alpha o) '+' (by decide))
+  have h2 : plusToSpace (toDec (optNum o)) = toDec (optNum o) :=
+    plusToSpace_id _ (ne_of_class (toDec_digits _) '+' (by decide))
+  rw [h1, h2, unquote_noPct _ (ne_of_class (optKey_alpha o) '%' (by decide)),
+    unquote_noPct _ (ne_of_class (toDec_digits _) '%' (by decide))]
+
+theorem parseQsl_query (os : List UOpt) :
+    parseQsl (queryText os) = os.map (fun o => (optKey o, toDec (optNum o))) := by
+  cases os with
+  | nil => simp [parseQsl, queryText]
+  | cons o os =>
+    have hne : queryText (o :: os) ≠ [] := by
+      simp only [queryText, renderOpt_eq]
+      cases o <;> simp [optKey]
+    unfold parseQsl
+    rw [if_neg hne]
+    simp only [queryText]
+    rw [splitOn_query]
+    generalize o :: os = l
+    induction l with
+    | nil => rfl
+    | cons a l ih =>
+      simp only [List.map_cons, List.filterMap_cons]
+      rw [field_parse a]
+      simp only [ih]
+
+/-- the first value stated for an option -/
+def firstOpt (key : Str) (os : List UOpt) : Option Nat :=
+  (os.find? (fun o => optKey o == key)).map optNum
+
+theorem firstValue_query (key : Str) (os : List UOpt) :
+    firstValue key (os.map (fun o => (optKey o, toDec (optNum o)))) = (firstOpt key os).map toDec := by
+  simp only [firstValue, firstOpt, List.find?_map, Option.map_map]
+  rfl
+
+theorem optValue_query (spec : OptSpec) (hs : spec.toInt = true) (os : List UOpt) :
+    optValue spec (parseQsl (queryText os)) =
+      .ok (match firstOpt spec.key os with
+           | some n => .int n
+           | none => spec.dflt) := by
+  unfold optValue
+  rw [parseQsl_query, firstValue_query]
+  cases firstOpt spec.key os with
+  | none => rfl
+  | some n => simp [hs, pyInt_toDec, Except.map]
+
 end Amqp.Uri
